@@ -836,6 +836,7 @@ func vkGenFaults(r *vfRng, thorough bool) vfCase {
 	}
 	ops = append(ops, []int64{5000, 0, 0, 0})
 	live := make([]bool, N)
+	taken := make([]bool, N)
 	nlive := N
 	for i := range live {
 		live[i] = true
@@ -843,7 +844,7 @@ func vkGenFaults(r *vfRng, thorough bool) vfCase {
 	steps := 4 + r.n(18)
 	for k := 0; k < steps; k++ {
 		dt := int64(200 + r.n(1500))
-		switch r.n(11) {
+		switch r.n(13) {
 		case 0:
 			ops = append(ops, []int64{dt, 5, int64([]int{0, 20, 50, 90}[r.n(4)]), int64([]int{0, 0, 30}[r.n(3)])})
 		case 1:
@@ -859,7 +860,7 @@ func vkGenFaults(r *vfRng, thorough bool) vfCase {
 			}
 		case 4:
 			for a := 0; a < N; a++ {
-				if !live[a] {
+				if !live[a] && !taken[a] {
 					b := r.n(N)
 					for !live[b] {
 						b = r.n(N)
@@ -888,6 +889,32 @@ func vkGenFaults(r *vfRng, thorough bool) vfCase {
 					b = r.n(N)
 				}
 				ops = append(ops, []int64{dt, 3, int64(a), 0}, []int64{int64(20 + r.n(150)), 4, int64(a), int64(b)})
+			}
+		case 11:
+			// a member that has raised its incarnation crashes, comes back at the same address (its new life
+			// starts below what the peers remember), and later changes its metadata again
+			a := r.n(N)
+			if live[a] {
+				b := r.n(N)
+				for !live[b] || b == a {
+					b = r.n(N)
+				}
+				ops = append(ops, []int64{dt, 1, int64(a), int64(1 + r.n(900))}, []int64{int64(100 + r.n(300)), 1, int64(a), int64(1 + r.n(900))},
+					[]int64{int64(300 + r.n(600)), 3, int64(a), 0}, []int64{int64(20 + r.n(2000)), 4, int64(a), int64(b)},
+					[]int64{int64(500 + r.n(1500)), 1, int64(a), int64(1 + r.n(900))})
+			}
+		case 12:
+			// a member crashes and a process with another name takes over its address
+			a := r.n(N)
+			if live[a] && nlive > 3 && !taken[a] {
+				b := r.n(N)
+				for !live[b] || b == a {
+					b = r.n(N)
+				}
+				live[a] = false
+				nlive--
+				taken[a] = true
+				ops = append(ops, []int64{dt, 3, int64(a), 0}, []int64{int64(20 + r.n(400)), 14, int64(a), int64(b)})
 			}
 		case 10:
 			// accused, refutes, then really crashes
